@@ -783,8 +783,21 @@ func writeChunks(res *vlib.Result, stream []byte, cuts []int, caseID string) (si
 	prev := 0
 	bounds := append(append([]int{}, cuts...), len(stream))
 	panicked := res.Guard("panic:LogScrubber.Write", rec, func() {
+		// every chunk is handed over in one reused scratch buffer which is
+		// scribbled over right after the call, as io.Copy or a bufio.Writer
+		// reuse theirs: an io.Writer must not retain p
+		var scratch []byte
 		for _, c := range bounds {
-			ls.Write(stream[prev:c])
+			chunk := stream[prev:c]
+			if cap(scratch) < len(chunk) {
+				scratch = make([]byte, len(chunk), 2*len(chunk)+16)
+			}
+			buf := scratch[:len(chunk)]
+			copy(buf, chunk)
+			ls.Write(buf)
+			for i := range buf {
+				buf[i] = '#'
+			}
 			prev = c
 		}
 	})
